@@ -6,7 +6,7 @@ Model of the front end: the checked-in table-driven parser `kiki/src/parser.rs`
 flattening functions below follow the `From` impls one by one).
 -/
 import KikiVerif.Model.Ast
-import KikiVerif.LR.Gen
+import KikiVerif.LR.Cert
 import KikiVerif.Generated.ParserRs
 import KikiVerif.Generated.ParserKiki
 
@@ -75,30 +75,21 @@ def kikiG : Grammar Nat Nat :=
 /-! ### the driver over the extracted tables -/
 
 open Generated in
-def frontAction (s : Nat) (la : Option Nat) : Action :=
-  ((ParserRs.actionTable[s]?).bind (·[la.getD ParserRs.terminalNames.length]?)).getD .err
-
-open Generated in
-def frontGoto (s b : Nat) : Option Nat := ((ParserRs.gotoTable[s]?).bind (·[b]?)).join
-
-open Generated in
 /-- the rule data the reduce arms of `parser.rs` use: (number of pops, lhs kind) -/
 def armRules : List (Rule Nat Nat) :=
   ParserRs.reduceArms.map fun a =>
     ⟨(ParserRs.nonterminalNames.idxOf? a.lhs).getD 0, List.replicate a.truncate (.t 0)⟩
 
 open Generated in
-def frontAuto : Auto Nat Nat :=
-  { start := ParserRs.startState, items := fun _ _ => False, delta := fun _ _ => none,
-    action := frontAction, goto := frontGoto, first := fun _ _ _ => False }
+/-- the extracted tables as a `Cert` (item sets and FIRST table are not needed to *run*) -/
+def frontCert : Valid.Cert :=
+  { nT := ParserRs.terminalNames.length, start := ParserRs.startState, states := [],
+    actions := ParserRs.actionTable, gotos := ParserRs.gotoTable, first := [] }
 
-/-- run the driver; `none` = out of fuel -/
-def runLoop {T N P : Type} (g : Grammar T N) (A : Auto T N) : Nat → Cfg T P → Option (StepRes T P)
-  | 0, _ => none
-  | fuel + 1, c =>
-    match step g A c with
-    | .cont c' => runLoop g A fuel c'
-    | r => some r
+def frontAuto : Auto Nat Nat := Valid.mkAuto frontCert
+
+/-- the grammar as the driver of `parser.rs` sees it -/
+def armG : Grammar Nat Nat := { rules := armRules, start := kikiG.start }
 
 inductive ParseOut where
   | ok (t : Tree Nat Token)
@@ -109,17 +100,12 @@ deriving Inhabited
 /-- `parser::parse`.  The driver uses, per rule, only the number of pops and the
 left-hand side; they are taken from the *extracted reduce arms* (`armRules`). -/
 def parse (toks : List Token) (fuel : Nat) : Option ParseOut :=
-  let g : Grammar Nat Nat := { rules := armRules, start := kikiG.start }
-  let input := toks.map mkTok
-  let rec go : Nat → Cfg Nat Token → Option ParseOut
-    | 0, _ => none
-    | fuel + 1, c =>
-      match step g frontAuto c with
-      | .cont c' => go fuel c'
-      | .ok t => some (.ok t)
-      | .panic => some .panic
-      | .err => some (.unexpected (if c.rest.isEmpty then none else some (toks.length - c.rest.length)))
-  go fuel ⟨[frontAuto.start], [], input⟩
+  (runCfg armG frontAuto fuel ⟨[frontAuto.start], [], toks.map mkTok⟩).map fun (r, c) =>
+    match r with
+    | .ok t => .ok t
+    | .panic => .panic
+    | .err => .unexpected (if c.rest.isEmpty then none else some (toks.length - c.rest.length))
+    | .cont _ => .panic      -- unreachable: `runCfg` never returns `cont`
 
 /-! ### `cst_to_ast.rs` -/
 
